@@ -703,11 +703,13 @@ func (vf *VerifyFunc) special(st *State, fr *Frame, in ssa.Instruction, key stri
 		r := st.freshVal(cc.Signature().Results().At(0).Type(), "err")
 		st.assume(not(eq(r.Tm, "iface_nil")))
 		st.freshErr(r)
+		st.assume("(forall ((x Iface)) (! (not (wraps " + r.Tm + " x)) :pattern ((wraps " + r.Tm + " x))))")
 		return r, true
 	case "fmt.Errorf":
 		r := st.freshVal(cc.Signature().Results().At(0).Type(), "err")
 		st.assume(not(eq(r.Tm, "iface_nil")))
 		st.freshErr(r)
+		var wrapped []string
 		// %w wrapping
 		if c, ok := cc.Args[0].(*ssa.Const); ok && c.Value != nil && len(args) >= 2 && args[1].S == SSlice {
 			format := constString(c)
@@ -715,11 +717,17 @@ func (vf *VerifyFunc) special(st *State, fr *Frame, in ssa.Instruction, key stri
 			h := st.heapGet("E:Iface", heapSortFor("E:Iface", SIface))
 			for i, v := range verbs {
 				if v == 'w' {
-					elem := sel(sel(h, "(s_base "+args[1].Tm+")"), "(+ (s_off "+args[1].Tm+") "+fmt.Sprint(i)+")")
-					st.assume("(wraps " + r.Tm + " " + elem + ")")
+					elem := st.named(SIface, "wrapped", sel(sel(h, "(s_base "+args[1].Tm+")"), "(+ (s_off "+args[1].Tm+") "+fmt.Sprint(i)+")"))
+					wrapped = append(wrapped, elem)
 				}
 			}
 		}
+		// errors.Is semantics: the new error wraps exactly its %w operands (and what they wrap)
+		var alts []string
+		for _, w := range wrapped {
+			alts = append(alts, and(not(eq(w, "iface_nil")), or(eq("x", w), "(wraps "+w+" x)")))
+		}
+		st.assume("(forall ((x Iface)) (! (= (wraps " + r.Tm + " x) " + or(alts...) + ") :pattern ((wraps " + r.Tm + " x))))")
 		return r, true
 	case "math.Floor":
 		return &Val{T: types.Typ[types.Float64], S: SReal, Tm: "(to_real (to_int " + args[0].Tm + "))"}, true
@@ -746,6 +754,7 @@ func (st *State) freshErr(r *Val) {
 			st.assume(not(eq(r.Tm, v)))
 		}
 	}
+	st.freshErrs = append(st.freshErrs, r.Tm)
 }
 
 func constString(c *ssa.Const) string {
